@@ -162,6 +162,50 @@ def one(g, rng, rk=None, body_i=None, is_async=None):
     g.add(rk, body_i, is_async, args, level, name, target, skips, fields, ret, err)
 
 
+def config(rng):
+    """One random point of the attribute/shape space, as the keyword arguments of Gen.add."""
+    rk = pick(rng, ["value", "value", "result", "result", "unit"])
+    args = [k for k in ARGS if rng.random() < 0.3]
+    idents = ["a"] + [i for k in args for i in ARGS[k][1]]
+    ret = err = None
+    if rng.random() < 0.45:
+        ret = (pick(rng, [None, "Debug"] + (["Display"] if rk == "value" else [])), pick(rng, [None, None, "warn", "trace"]))
+    if rk == "result" and rng.random() < 0.6:
+        err = (pick(rng, [None, "Debug", "Display"]), pick(rng, [None, None, "info", "warn"]))
+    return dict(rk=rk, body_i=rng.randrange(len(BODIES[rk])), is_async=rng.random() < 0.4, args=args, level=pick(rng, LEVELS),
+                name=pick(rng, [None, None, "custom name"]), target=pick(rng, [None, None, "tgt::x"]),
+                skips=[i for i in idents if rng.random() < 0.25],
+                fields=pick(rng, [None, None, "expr", "lit", "shadow", "dotted", "dotted_leaf"]), ret=ret, err=err)
+
+
+def features(c):
+    """The dimension values of a configuration whose pairwise combinations the quick corpus must cover."""
+    f = {"rk=%s" % c["rk"], "async=%s" % c["is_async"], "level=%s" % c["level"], "name=%s" % bool(c["name"]), "target=%s" % bool(c["target"]),
+         "fields=%s" % c["fields"], "skip_a=%s" % ("a" in c["skips"]),
+         "ret=%s" % (("mode:%s" % c["ret"][0]) if c["ret"] else None), "retlvl=%s" % (c["ret"][1] if c["ret"] else "-"),
+         "err=%s" % (("mode:%s" % c["err"][0]) if c["err"] else None), "errlvl=%s" % (c["err"][1] if c["err"] else "-")}
+    f |= {"arg:%s" % k for k in c["args"]}
+    return f
+
+
+def pairwise(g, budget=4000):
+    """Greedy pairwise cover: draw configurations from a fixed stream and keep each one that exhibits a pair of dimension
+    values no kept configuration has shown yet (a fault that needs two options together -- `target` with `err(Debug)` --
+    is then in the quick corpus, not only in the random tier)."""
+    rng = random.Random(4242)
+    seen = set()
+    kept = 0
+    for _ in range(budget):
+        c = config(rng)
+        fs = sorted(features(c))
+        pairs = {(x, y) for i, x in enumerate(fs) for y in fs[i + 1:]}
+        if len(pairs - seen) >= (3 if kept < 40 else 1):
+            seen |= pairs
+            g.add(**c)
+            kept += 1
+    return kept
+
+
 def canonical(g):
     rng = random.Random(1729)
     # every body shape, sync and async, with randomly mixed attribute arguments
@@ -191,6 +235,7 @@ def canonical(g):
     for f in ("expr", "lit", "shadow", "dotted", "dotted_leaf"):
         g.add("value", 0, False, ["b"], None, None, None, [], f, None, None)
         g.add("unit", 0, True, [], None, None, None, [], f, None, None)
+    pairwise(g)
 
 
 def main():
